@@ -6,10 +6,11 @@ Behs == {"echo", "typed", "typednull", "unreg", "exc"}
 Args == {"none", "pos", "named"}
 Cl(b, a, n) == [beh |-> b, args |-> a, notif |-> n]
 P(nt, cs, ig, st, ck, dk) == [notation |-> nt, calls |-> cs, idgen |-> ig, strict |-> st, ck |-> ck, dk |-> dk]
-IdGens == {"sequential", "randint", "random", "uuid"}
+IdGens == {"sequential", "sequential0", "randint", "random", "uuid", "empty_string"}   \* sequential0: ids 0, 1, ..; empty_string: the id ""
 Kinds == {"sync", "async"}
+DKinds == {"sync", "async", "async_plain"}     \* async_plain: the asynchronous dispatcher serving plain (non-coroutine) functions
 Combos == {<<"sequential", TRUE, "sync", "sync">>, <<"random", TRUE, "async", "async">>,
-           <<"randint", FALSE, "sync", "async">>, <<"uuid", TRUE, "async", "sync">>}
+           <<"randint", FALSE, "sync", "async">>, <<"uuid", TRUE, "async", "sync">>, <<"sequential0", TRUE, "sync", "async_plain">>}
 CallsFull  == {Cl(b, a, n) : b \in Behs, a \in Args, n \in BOOLEAN}
 CallsSmall == {Cl("echo", "pos", FALSE), Cl("echo", "named", FALSE), Cl("typed", "none", FALSE), Cl("exc", "pos", FALSE),
                Cl("echo", "pos", TRUE), Cl("exc", "none", TRUE)}
@@ -17,7 +18,7 @@ AllowedIn(nt, c) == CASE nt = "batch_proxy"   -> ~c.notif
                       [] nt = "batch_getitem" -> ~c.notif /\ c.args # "named"
                       [] OTHER -> TRUE
 InitE2E(n) ==
-    \/ \E nt \in SingleNotations, b \in Behs, a \in Args, ig \in IdGens, st \in BOOLEAN, ck \in Kinds, dk \in Kinds :
+    \/ \E nt \in SingleNotations, b \in Behs, a \in Args, ig \in IdGens, st \in BOOLEAN, ck \in Kinds, dk \in DKinds :
           InitWith(P(nt, <<Cl(b, a, FALSE)>>, ig, st, ck, dk))
     \/ \E b \in Behs, a \in Args, st \in BOOLEAN, ck \in Kinds, dk \in Kinds :
           InitWith(P("notify", <<Cl(b, a, TRUE)>>, "sequential", st, ck, dk))
